@@ -28,7 +28,11 @@ struct Case {
     n: usize,
     run: Run,
 }
-const FORMATS: [&str; 4] = ["json:to_string/from_str", "json:to_vec/from_slice", "json:to_value/from_value", "cbor:to_vec/from_slice"];
+const FORMATS: [&str; 7] = ["json:to_string/from_str", "json:to_vec/from_slice", "json:to_value/from_value", "cbor:to_vec/from_slice",
+    "cbor packed (struct members by position):to_vec_packed/from_slice", "json:to_string/deserialize_in_place into another value", "cbor:to_vec/deserialize_in_place into another value"];
+fn is_binary(fmt: usize) -> bool {
+    matches!(fmt, 3 | 4 | 6)
+}
 
 fn trip<T: Serialize + DeserializeOwned>(v: &T, fmt: usize) -> Result<T, String> {
     match fmt {
@@ -44,11 +48,43 @@ fn trip<T: Serialize + DeserializeOwned>(v: &T, fmt: usize) -> Result<T, String>
             let s = serde_json::to_value(v).map_err(|e| format!("serialize: {e}"))?;
             serde_json::from_value(s).map_err(|e| format!("deserialize: {e}"))
         }
-        _ => {
+        3 => {
             let s = serde_cbor::to_vec(v).map_err(|e| format!("serialize: {e}"))?;
             serde_cbor::from_slice(&s).map_err(|e| format!("deserialize: {e}"))
         }
+        4 => {
+            let s = serde_cbor::ser::to_vec_packed(v).map_err(|e| format!("serialize: {e}"))?;
+            serde_cbor::from_slice(&s).map_err(|e| format!("deserialize: {e}"))
+        }
+        // the in-place formats without a place to read into: plain reads
+        5 => trip(v, 0),
+        _ => trip(v, 3),
     }
+}
+/// read into an existing value (`place`, different contents, for piecewise functions more segments) instead of creating one
+fn trip_in<T: Serialize + DeserializeOwned>(v: &T, fmt: usize, mut place: T) -> Result<T, String> {
+    use serde::Deserialize;
+    match fmt {
+        5 => {
+            let s = serde_json::to_string(v).map_err(|e| format!("serialize: {e}"))?;
+            let mut de = serde_json::Deserializer::from_str(&s);
+            T::deserialize_in_place(&mut de, &mut place).map_err(|e| format!("deserialize_in_place {s}: {e}"))?;
+            de.end().map_err(|e| format!("trailing input: {e}"))?;
+            Ok(place)
+        }
+        6 => {
+            let s = serde_cbor::to_vec(v).map_err(|e| format!("serialize: {e}"))?;
+            let mut de = serde_cbor::Deserializer::from_slice(&s);
+            T::deserialize_in_place(&mut de, &mut place).map_err(|e| format!("deserialize_in_place: {e}"))?;
+            de.end().map_err(|e| format!("trailing input: {e}"))?;
+            Ok(place)
+        }
+        _ => trip(v, fmt),
+    }
+}
+/// other contents of the same shape for the place that is read into
+fn other_nums(nums: &[f64]) -> Vec<f64> {
+    nums.iter().enumerate().map(|(i, _)| 7.5 - i as f64 * 0.25).collect()
 }
 
 fn finish<T: PartialEq>(orig: &T, back: Result<Result<T, String>, String>, on: &[f64], bn: impl Fn(&T) -> Vec<f64>, fmt: usize) -> Result<(), (String, Value)> {
@@ -73,7 +109,7 @@ fn form_case<T>(ty: String) -> Case
 where
     T: Nums + Serialize + DeserializeOwned + PartialEq,
 {
-    Case { ty, n: T::N, run: Box::new(|nums, fmt| { let v = T::from_nums(nums); let r = guard(|| trip(&v, fmt)); finish(&v, r, nums, |b| b.nums(), fmt) }) }
+    Case { ty, n: T::N, run: Box::new(|nums, fmt| { let v = T::from_nums(nums); let place = T::from_nums(&other_nums(nums)); let r = guard(|| trip_in(&v, fmt, place)); finish(&v, r, nums, |b| b.nums(), fmt) }) }
 }
 fn pw_case<T>(ty: String, pieces: usize) -> Case
 where
@@ -84,8 +120,18 @@ where
         n: pieces * (T::N + 1),
         run: Box::new(|nums, fmt| {
             let v = pw_from_nums::<T>(nums);
-            let r = guard(|| trip(&v, fmt));
+            // the place read into (in-place formats): a function with three more segments and other numbers
+            let mut longer = other_nums(nums);
+            longer.extend((0..3 * (T::N + 1)).map(|i| -1.0 - i as f64));
+            let place = pw_from_nums::<T>(&longer);
+            let r = guard(|| trip_in(&v, fmt, place));
             finish(&v, r, nums, |b| pw_nums(b), fmt)?;
+            if fmt >= 5 {
+                // and a place with fewer segments (one, or none)
+                let place = pw_from_nums::<T>(&other_nums(&nums[..(T::N + 1).min(nums.len())]));
+                let r = guard(|| trip_in(&v, fmt, place));
+                finish(&v, r, nums, |b| pw_nums(b), fmt).map_err(|(what, d)| (format!("{what} (read into a shorter function)"), d))?;
+            }
             // the same value with allocation history that == cannot see: spare capacity from reserve / push growth
             let mut w = pw_from_nums::<T>(nums);
             w.segments.reserve(7);
@@ -131,7 +177,7 @@ pub fn check(thorough: bool, _seed: u64) -> Check {
         body: Box::new(move |unit, cx| {
             let c = &cs2[unit / FORMATS.len()];
             let fmt = unit % FORMATS.len();
-            let binary = fmt == 3;
+            let binary = is_binary(fmt);
             let alpha: &[f64] = if binary { &f[..] } else { &f[..f.len() - 2] }; // text formats: finite contents only
             let nums: Vec<f64> = if c.n == 0 {
                 vec![]
@@ -190,10 +236,10 @@ pub fn check(thorough: bool, _seed: u64) -> Check {
             cx.nontrivial();
             cx.evals(1);
             let (ty, r) = match unit % 4 {
-                0 => ("Piecewise<Poly0>", { let nums = nums_for(pieces, 2); let v = pw_from_nums::<Poly0>(&nums); let r = guard(|| trip(&v, fmt)); finish(&v, r, &nums, |b| pw_nums(b), fmt) }),
-                1 => ("Piecewise<Poly3>", { let nums = nums_for(pieces, 5); let v = pw_from_nums::<Poly3>(&nums); let r = guard(|| trip(&v, fmt)); finish(&v, r, &nums, |b| pw_nums(b), fmt) }),
-                2 => ("Piecewise<Poly8>", { let nums = nums_for(pieces, 10); let v = pw_from_nums::<Poly8>(&nums); let r = guard(|| trip(&v, fmt)); finish(&v, r, &nums, |b| pw_nums(b), fmt) }),
-                _ => ("Piecewise<IntOfLogPoly4>", { let nums = nums_for(pieces, 7); let v = pw_from_nums::<IntOfLogPoly4>(&nums); let r = guard(|| trip(&v, fmt)); finish(&v, r, &nums, |b| pw_nums(b), fmt) }),
+                0 => ("Piecewise<Poly0>", { let nums = nums_for(pieces, 2); let v = pw_from_nums::<Poly0>(&nums); let place = pw_from_nums::<Poly0>(&nums_for(pieces + 5, 2)); let r = guard(|| trip_in(&v, fmt, place)); finish(&v, r, &nums, |b| pw_nums(b), fmt) }),
+                1 => ("Piecewise<Poly3>", { let nums = nums_for(pieces, 5); let v = pw_from_nums::<Poly3>(&nums); let place = pw_from_nums::<Poly3>(&nums_for(pieces + 5, 5)); let r = guard(|| trip_in(&v, fmt, place)); finish(&v, r, &nums, |b| pw_nums(b), fmt) }),
+                2 => ("Piecewise<Poly8>", { let nums = nums_for(pieces, 10); let v = pw_from_nums::<Poly8>(&nums); let place = pw_from_nums::<Poly8>(&nums_for(pieces / 2, 10)); let r = guard(|| trip_in(&v, fmt, place)); finish(&v, r, &nums, |b| pw_nums(b), fmt) }),
+                _ => ("Piecewise<IntOfLogPoly4>", { let nums = nums_for(pieces, 7); let v = pw_from_nums::<IntOfLogPoly4>(&nums); let place = pw_from_nums::<IntOfLogPoly4>(&nums_for(pieces + 1, 7)); let r = guard(|| trip_in(&v, fmt, place)); finish(&v, r, &nums, |b| pw_nums(b), fmt) }),
             };
             if cx.sampling() {
                 cx.sample(json!({"type": ty, "segments": pieces, "format": FORMATS[fmt]}));
